@@ -235,9 +235,7 @@ where
             // Awaiting for a shutdown event or a new frame
             let maybe_frame = tokio::select! {
                 res = self.connection.read_frame() => res?,
-                _ = self.shutdown.recv() => {
-                    return Ok(());
-                }
+                _ = self.shutdown.recv() => break,
             };
 
             // No frame left means the client closed the connection, so we can
@@ -255,6 +253,9 @@ where
             cmd.apply(storage, &mut self.connection, &mut self.shutdown)
                 .await?;
         }
+        // The server is shutting down. The last reply may still be on its way to the client,
+        // so the connection is closed in a way that does not destroy it.
+        self.connection.close().await?;
         Ok(())
     }
 }
